@@ -219,6 +219,89 @@ def conditioning_site(prog):
                 errs[0] if errs else "same literal → clause dropped; complementary → literal dropped; other → kept")
 
 
+def opt_val(t, a, p, litp):
+    """value of a term over (assignment a ∈ {None,0,1}, polarity p) inside a predicate closure whose literal is `litp`:
+    scalars are ints, option values are ('None',) / ('Some', v)"""
+    t = strip(t)
+    if not isinstance(t, tuple) or not t:
+        raise Und("non-term")
+    if t[0] == "const":
+        return int(t[2])
+    if mir.is_call(t, "polarity") and strip(t[2][0]) == litp:
+        return p
+    if mir.is_call(t, "get") and len(t[2]) == 2 and mir.is_call(strip(t[2][1]), "label"):
+        return ("None",) if a is None else ("Some", a)
+    if t[0] == "agg" and str(t[2]).endswith("Option"):
+        return ("None",) if t[3] == "None" else ("Some", opt_val(t[4][0], a, p, litp))
+    if t[0] == "un" and t[1] == "Not":
+        return 1 - opt_val(t[2], a, p, litp)
+    if t[0] == "bin" and t[1] in ("Eq", "Ne"):
+        x, y = opt_val(t[2], a, p, litp), opt_val(t[3], a, p, litp)
+        return int((x == y) == (t[1] == "Eq"))
+    if t[0] == "call" and t[1].name in ("eq", "ne") and len(t[2]) == 2:
+        x, y = opt_val(t[2][0], a, p, litp), opt_val(t[2][1], a, p, litp)
+        return int((x == y) == (t[1].name == "eq"))
+    if t[0] == "call" and t[1].name in ("is_some", "is_none") and t[2]:
+        x = opt_val(t[2][0], a, p, litp)
+        return int((x != ("None",)) == (t[1].name == "is_some"))
+    if t[0] == "call" and t[1].name in ("unwrap_or",) and len(t[2]) == 2:
+        x = opt_val(t[2][0], a, p, litp)
+        return x[1] if x[0] == "Some" else opt_val(t[2][1], a, p, litp)
+    if t[0] == "field" and t[2] == "0" and isinstance(t[1], tuple) and t[1][0] == "as":
+        x = opt_val(t[1][1], a, p, litp)
+        if x[0] != "Some":
+            raise Und("payload of None")
+        return x[1]
+    if t[0] == "discr":
+        x = opt_val(t[1], a, p, litp)
+        return 0 if x == ("None",) else 1
+    if t[0] == "gamma":
+        c = opt_val(t[1], a, p, litp)
+        for lab, v in t[2]:
+            if lab == str(c):
+                return opt_val(v, a, p, litp)
+        for lab, v in t[2]:
+            if isinstance(lab, tuple) and lab[0] == "not" and str(c) not in lab[1]:
+                return opt_val(v, a, p, litp)
+        raise Und("gamma arm")
+    raise Und("term %s" % show(t)[:50])
+
+
+def predicate_form(prog, fn):
+    """the scan written with an iterator predicate (`clause.iter().any(|lit| ..)`): the predicate must hold exactly for a
+    satisfied literal"""
+    key = "%s:literal-status" % fn.npath
+    kids = [g for g in prog.lib_fns if g.npath.startswith(fn.npath + "::{closure")]
+    cand = []
+    for g in kids:
+        for cs in g.terms.calls:
+            if cs.callee.name == "get" and "PartialModel" in cs.callee.key() and len(cs.args) == 2 and \
+                    mir.is_call(strip(cs.args[1]), "label") and strip(strip(cs.args[1])[2][0])[0] == "param":
+                cand.append((g, strip(strip(cs.args[1])[2][0])))
+    used = [c for c in fn.terms.calls if c.callee.name in ("any", "all", "find", "position")]
+    by_used = {a[2] for c in used for a in c.args if isinstance(a, tuple) and a and a[0] == "agg" and a[1] == "closure"}
+    cand = [c for c in cand if c[0].npath in by_used]
+    if len(cand) != 1 or not used:
+        return inst("LC", key, UNDECIDED, fn, None, "no lookup of a clause literal in the partial model found in this function or its closures")
+    g, litp = cand[0]
+    how = [c.callee.name for c in used if any(isinstance(a, tuple) and a and a[0] == "agg" and a[1] == "closure" and a[2] == g.npath for a in c.args)]
+    if how != ["any"]:
+        return inst("LC", key, UNDECIDED, fn, None, "the literal predicate is used by %s" % how)
+    errs = []
+    try:
+        for a in (None, 0, 1):
+            for p in (0, 1):
+                got = opt_val(g.terms.ret, a, p, litp)
+                want = int(a is not None and a == p)
+                if got != want:
+                    errs.append("the predicate is %s for a literal of polarity %s whose variable is %s"
+                                % (bool(got), bool(p), "unassigned" if a is None else bool(a)))
+    except Und as e:
+        return inst("LC", key, UNDECIDED, fn, None, "predicate not interpretable: %s" % e)
+    return inst("LC", key, VIOLATION if errs else OK, g, None,
+                errs[0] if errs else "any(|lit| model.get(lit.label()) == Some(lit.polarity())): true exactly for a satisfied literal")
+
+
 def run(prog):
     out = [total_assignment_site(prog), conditioning_site(prog)]
     for name, owner in SITES:
@@ -231,7 +314,8 @@ def run(prog):
         gets = [cs for cs in te.calls if cs.callee.name == "get" and "PartialModel" in cs.callee.key()
                 and len(cs.args) == 2 and mir.is_call(strip(cs.args[1]), "label") and "next(" in show(cs.args[1])]
         if len(gets) != 1:
-            raise CheckerError("LC: expected one PartialModel::get(label(lit)) in %s, found %d" % (fn.npath, len(gets)))
+            out.append(predicate_form(prog, fn))
+            continue
         g = gets[0]
         lit = strip(strip(g.args[1])[2][0])
         loops = sorted([h for h, body in cfg.loop_headers.items() if g.bb in body], key=lambda h: len(cfg.loop_headers[h]))
